@@ -11,7 +11,7 @@ WORK="${VERIF_WORK:-$VERIF_HOME/.work}"
 export VERIF_REPO="$REPO" VERIF_WORK="$WORK"
 mkdir -p "$WORK" bin
 build() {
-  if [ ! -x bin/simgen ]; then
+  if [ ! -x bin/simgen ] || [ -n "$(find simgen -name '*.go' -newer bin/simgen 2>/dev/null)" ]; then
     (cd simgen && go build -o ../bin/simgen .) || { echo "verif: cannot build simgen" >&2; exit 2; }
   fi
   bin/simgen -repo "$REPO" -out "$WORK/overlay" -simrt "$VERIF_HOME/simrt" >"$WORK/simgen.log" 2>&1 || {
